@@ -5,40 +5,54 @@
    the includes-table of every installed dispatcher, the (when, defined action) pairs of its
    ContextDispatchers, the operations (install / dispatch), and per dispatch: was the signature
    in `_route_cache`, which primitive dispatchers ran in which order, the events returned;
-   finally the content of `_route_cache`. *)
+   finally the content of `_route_cache`.
+   Rejections (TandemDispatcher returns a base answer containing an event tagged REJECT as it is, the
+   followers do not run): whether a primitive's answer was a rejection depends on the entity state,
+   which this instance does not model; it is RECORDED: every dispatch carries the list of
+   (primitive id, k) such that the k-th call (from 0) of that primitive within this top-level dispatch
+   answered with a rejection.  The event of such a call is (id, 0) -- signature ids start at 1. *)
 From Coq Require Import List Bool NArith Arith.
 From V.Model Require Import Router.
 Import ListNotations.
 
 Definition TTrace := list (N * N).                 (* (dispatcher id, signature of the action it got) *)
-Definition TDisp := disp N N TTrace (N * N).
-Definition TOp := rop N N TTrace (N * N).
+Definition TOracle := list (N * nat).              (* recorded rejections: (dispatcher id, occurrence) *)
+Definition TSt := (TTrace * TOracle)%type.
+Definition TDisp := disp N N TSt (N * N).
+Definition TOp := rop N N TSt (N * N).
+Definition is_rej (e : N * N) : bool := N.eqb (snd e) 0.
 
 Definition memN (s : N) (l : list N) : bool := existsb (N.eqb s) l.
 
 (* primitive dispatcher `i`: includes exactly `incl`; raises on the signatures in `fails` *)
+Definition occ (i : N) (tr : TTrace) : nat := List.length (filter (fun p => N.eqb (fst p) i) tr).
 Definition P (i : N) (incl fails : list N) : TDisp :=
   Prim (fun s => memN s incl)
-       (fun a st => if memN a fails then None else Some ((i, a) :: st, [(i, a)])).
+       (fun a st =>
+          if memN a fails then None
+          else let '(tr, orc) := st in
+               let k := occ i tr in
+               let r := existsb (fun p => N.eqb (fst p) i && Nat.eqb (snd p) k) orc in
+               Some (((i, a) :: tr, orc), [(i, if r then 0%N else a)])).
 Definition C (w a : N) : TDisp := Ctx w a.
 Definition T (b : TDisp) (nx : list TDisp) : TDisp := Tandem b nx.
 Definition I (d : TDisp) : TOp := Install d.
-Definition D (a : N) : TOp := Dispatch a [].
+Definition D (a : N) (rejs : TOracle) : TOp := Dispatch a ([], rejs).
 
 Definition sgN (a : N) : N := a.
 
 (* one observation per dispatch: cache hit?, Some (calls in order, events) or None = raised *)
 Definition TObs := (bool * option (TTrace * list (N * N)))%type.
 
-Fixpoint observe (fuel : nat) (r : router N N TTrace (N * N)) (ops : list TOp)
-  : router N N TTrace (N * N) * list TObs :=
+Fixpoint observe (fuel : nat) (r : router N N TSt (N * N)) (ops : list TOp)
+  : router N N TSt (N * N) * list TObs :=
   match ops with
   | [] => (r, [])
-  | Install d :: t => observe fuel (install N N TTrace (N * N) r d) t
+  | Install d :: t => observe fuel (install N N TSt (N * N) r d) t
   | Dispatch a st :: t =>
       let hit := match lookup N N.eqb (rc r) (sgN a) with Some _ => true | None => false end in
-      let '(r', o) := dispatch N N TTrace (N * N) N.eqb sgN fuel r a st in
-      let o' := match o with Some (tr, evs) => Some (rev tr, evs) | None => None end in
+      let '(r', o) := dispatch N N TSt (N * N) N.eqb sgN is_rej fuel r a st in
+      let o' := match o with Some ((tr, _), evs) => Some (rev tr, evs) | None => None end in
       let '(r'', os) := observe fuel r' t in (r'', (hit, o') :: os)
   end.
 
@@ -71,10 +85,12 @@ Definition cache_ok (c : cache N) (universe : list N) (expected : list (option (
 (* the cache-free router on the same operations (only comparable when nothing is installed late) *)
 Definition nc_ok (fuel : nat) (ops : list TOp) (obs : list TObs) : bool :=
   list_eqb (opt_eqb (fun a b => list_eqb pair_eqb (rev (fst a)) (fst b) && list_eqb pair_eqb (snd a) (snd b)))
-           (serve_nc N N TTrace (N * N) N.eqb sgN fuel [] ops) (map snd obs).
+           (map (fun o : option (TSt * list (N * N)) => match o with Some ((tr, _), evs) => Some (tr, evs) | None => None end)
+                (serve_nc N N TSt (N * N) N.eqb sgN is_rej fuel [] ops))
+           (map snd obs).
 
 Definition check (fuel : nat) (ops : list TOp) (late : bool) (universe : list N)
            (expected : list TExp) (expected_cache : list (option (list nat))) : bool :=
-  let '(r, obs) := observe fuel (new_router N N TTrace (N * N)) ops in
+  let '(r, obs) := observe fuel (new_router N N TSt (N * N)) ops in
   list_eqb obs_ok obs expected && cache_ok (rc r) universe expected_cache &&
   (late || nc_ok fuel ops obs).
